@@ -440,6 +440,24 @@ func (x *mctx) nativeMutants() []Mut {
 			m.Sigs[i].Sig = append([]byte("SHA256"), s.Sign(d[:])...)
 			add("sig-prehash-resigned"+sfx, m)
 		}
+		if s := x.signers[i]; s != nil && keyTypeName(s) == "ed25519" {
+			// the hardware-wallet form with bytes behind the signature value
+			m := o.clone()
+			d := sha256.Sum256(o.signedBytes())
+			m.Sigs[i].Sig = append(append([]byte("SHA256"), s.Sign(d[:])...), [][]byte{{0x90}, {0x90, 0x00}, make([]byte, 64)}[c.Intn(3, "pretail")]...)
+			add("sig-prehash-resigned-with-tail"+sfx, m)
+		}
+		if len(o.Sigs[i].Sig) == 64 && (o.Sigs[i].KeyType == "secp256k1" || o.Sigs[i].KeyType == "btcecsecp") {
+			// ECDSA malleability: (r, N-s) verifies wherever (r, s) does unless the verifier insists on the low half
+			m := o.clone()
+			n, _ := new(big.Int).SetString("fffffffffffffffffffffffffffffffebaaedce6af48a03bbfd25e8cd0364141", 16)
+			sv := new(big.Int).SetBytes(m.Sigs[i].Sig[32:])
+			hs := new(big.Int).Sub(n, sv).Bytes()
+			sig := append([]byte{}, m.Sigs[i].Sig[:32]...)
+			sig = append(sig, make([]byte, 32-len(hs))...)
+			m.Sigs[i].Sig = append(sig, hs...)
+			add("sig-ecdsa-other-s"+sfx, m)
+		}
 		// --- signature bytes reused unchanged from somewhere else (the key entry stays the required signer's)
 		if len(o.Sigs) >= 2 {
 			// another slot's signature bytes of this very transaction
